@@ -772,6 +772,34 @@ def _run_after_flatten(check, an: Analysis):
                 [ast.unparse(a) for a in value.args] == ['self.pop()'] and not value.keywords
     check.instance('P', 'InterruptQueue.value', ok and n > 0, where_fn(iq_value.fn),
                    'each yield receives one Interrupt(cause) (%d return paths)' % n)
+    # ... and the cause is the one given: push() queues its argument, pop() hands out what
+    # it took from the front
+    iq_pop = an.callee(IQUEUE, 'pop')
+    ok, n = True, 0
+    for path in an.paths(iq_pop):
+        if path.kind == 'return':
+            n += 1
+            value = rules.value_text(path, len(path.events), path.outcome[1]) \
+                if path.outcome[1] is not None else 'None'
+            ok &= value == 'self._causes.pop(0)'
+    check.instance('P', 'InterruptQueue.pop:returns-the-cause', ok and n > 0,
+                   where_fn(iq_pop.fn), 'pop() returns the cause it took from the front of '
+                   'the queue (%d return paths)' % n)
+    push_fn = an.method(IQUEUE, 'push')
+    cause_param = push_fn.node.args.args[1].arg
+    ok, n = True, 0
+    for path in an.paths(an.callee(IQUEUE, 'push')):
+        if not path.normal:
+            continue
+        n += 1
+        queued = [rules.value_text(path, i, e.node.args[0]) for i, e in enumerate(path.events)
+                  if e.kind == 'call' and isinstance(e.node, ast.Call) and isinstance(
+                      e.node.func, ast.Attribute) and e.node.func.attr == 'append'
+                  and rules.receiver_at(path, e) == 'self._causes' and e.node.args]
+        ok &= queued == [cause_param]
+    check.instance('P', 'InterruptQueue.push:queues-the-cause', ok and n > 0,
+                   where_fn(push_fn), 'every push() queues exactly the cause it was given '
+                   '(%d paths)' % n)
     push = an.callee(IQUEUE, 'push')
     ok = True
     for path in an.paths(push):
